@@ -1043,6 +1043,8 @@ func (fr *Frame) execGo(x *ssa.Go, reach string, h Heap) {
 		}
 		args = append(args, fr.valOf(a))
 	}
+	// argument-flow clauses of the spawner's contract apply to go statements as to calls
+	fr.atCallObligations(callee.String(), args, reach, h)
 	env := fr.calleeEnv(ct, callee, x.Call.Signature(), args, h, false)
 	for _, l := range ct.Lets {
 		env.vars[l.Name] = env.eval(l.Expr)
